@@ -138,6 +138,14 @@ func randFlags(g *vlib.Rng) uint32 {
 	return f
 }
 
+// safeStr evaluates f (calls into real gocoin code); a panic is the observation "panic".
+func safeStr(site string, f func() string) (res string) {
+	if !guard(site, func() { res = f() }) {
+		res = "panic"
+	}
+	return
+}
+
 func helperStreams() {
 	g := r.Rng.Fork()
 	cmp := func(kind, req, want string, parts ...int) {
@@ -171,7 +179,8 @@ func helperStreams() {
 		if p {
 			vs = "panic"
 		}
-		want := fmt.Sprintf("%s %s %s", vs, b01(script.VerifIsMinimal(it)), b01(script.VerifBts2Bool(it)))
+		want := fmt.Sprintf("%s %s %s", vs, safeStr("is_minimal", func() string { return b01(script.VerifIsMinimal(it)) }),
+			safeStr("bts2bool", func() string { return b01(script.VerifBts2Bool(it)) }))
 		cmp("num", "num "+vlib.Hex(it), want, 0, 1, 2)
 		// the spec's decoder / minimality rule / CastToBool against the implementation
 		if !p {
@@ -190,7 +199,7 @@ func helperStreams() {
 		vals = append(vals, int64(g.U64()>>uint(24+g.Intn(40)))*int64(1-2*g.Intn(2)))
 	}
 	for _, v := range vals {
-		h := vlib.Hex(script.VerifPushInt(v))
+		h := safeStr("pushInt", func() string { return vlib.Hex(script.VerifPushInt(v)) })
 		cmp("pushint", "pushint "+strconv.FormatInt(v, 10), h+" "+h)
 	}
 	// GetOpcode / parse
@@ -205,19 +214,19 @@ func helperStreams() {
 		if b[0] == 0x4e && len(b) >= 5 {
 			b[3], b[4] = 0, 0
 		}
-		var want string
-		op, ret, n, e := btc.GetOpcode(b)
-		if e != nil {
-			want = "err | serr"
-		} else {
+		want := safeStr("GetOpcode", func() string {
+			op, ret, n, e := btc.GetOpcode(b)
+			if e != nil {
+				return "err | serr"
+			}
 			rs := "none"
 			data := "-"
 			if ret != nil {
 				rs = vlib.Hex(ret)
 				data = vlib.Hex(ret)
 			}
-			want = fmt.Sprintf("%d %s %d | %d %s %d", op, rs, n, op, data, len(b)-n)
-		}
+			return fmt.Sprintf("%d %s %d | %d %s %d", op, rs, n, op, data, len(b)-n)
+		})
 		cmp("getop", "getop "+vlib.Hex(b), want)
 	}
 	// delSig against the model; the spec's FindAndDelete is compared where the two are specified to coincide
@@ -239,10 +248,14 @@ func helperStreams() {
 		if g.Intn(6) == 0 {
 			w = append(w, 0x4c)
 		}
-		var res []byte
-		var cnt int
-		quiet(func() { res, cnt = script.VerifDelSig(w, sg) })
-		cmp("delsig", fmt.Sprintf("delsig %s %s", vlib.Hex(w), vlib.Hex(sg)), fmt.Sprintf("%s %d", vlib.Hex(res), cnt), 0, 1)
+		wantDel := safeStr("delSig", func() (s string) {
+			quiet(func() {
+				res, cnt := script.VerifDelSig(w, sg)
+				s = fmt.Sprintf("%s %d", vlib.Hex(res), cnt)
+			})
+			return
+		})
+		cmp("delsig", fmt.Sprintf("delsig %s %s", vlib.Hex(w), vlib.Hex(sg)), wantDel, 0, 1)
 		rep := strings.Fields(o.MustAsk(fmt.Sprintf("delsig %s %s", vlib.Hex(w), vlib.Hex(sg))))
 		if len(rep) == 4 && (rep[0] != rep[2] || rep[1] != rep[3]) {
 			r.Hit("delsig:differs-from-FindAndDelete(sig-len-or-decode-error)")
@@ -265,7 +278,7 @@ func helperStreams() {
 			sg = sg[:g.Intn(len(sg))]
 		}
 		fl := randFlags(g)
-		want := b01(script.CheckSignatureEncoding(sg, fl))
+		want := safeStr("CheckSignatureEncoding", func() string { return b01(script.CheckSignatureEncoding(sg, fl)) })
 		cmp("sigenc", fmt.Sprintf("sigenc %d %s", fl, vlib.Hex(sg)), want, 0)
 		rep := strings.Fields(o.MustAsk(fmt.Sprintf("sigenc %d %s", fl, vlib.Hex(sg))))
 		if len(rep) == 2 && (rep[1] == "OK") != (want == "1") {
@@ -283,7 +296,7 @@ func helperStreams() {
 			pk = append([]byte{byte(4 + g.Intn(4))}, g.Bytes(64)...)
 		}
 		sv := g.Pick(0, 1, 3)
-		want = b01(script.CheckPubKeyEncoding(pk, fl, sv))
+		want = safeStr("CheckPubKeyEncoding", func() string { return b01(script.CheckPubKeyEncoding(pk, fl, sv)) })
 		req := fmt.Sprintf("pkenc %d %d %s", fl, sv, vlib.Hex(pk))
 		cmp("pkenc", req, want, 0)
 		rep = strings.Fields(o.MustAsk(req))
@@ -292,7 +305,7 @@ func helperStreams() {
 		}
 		d := randItem(g)
 		opc := g.Pick(0, len(d), 0x4c, 0x4d, 0x4e, 0x4f, 0x51, 0x50+int(append(d, 0)[0]))
-		w := b01(script.VerifCheckMinimalPush(d, opc))
+		w := safeStr("checkMinimalPush", func() string { return b01(script.VerifCheckMinimalPush(d, opc)) })
 		cmp("minpush", fmt.Sprintf("minpush %s %d", vlib.Hex(d), opc), w+" "+w)
 	}
 	// the Lean hash functions against Go's
@@ -302,9 +315,11 @@ func helperStreams() {
 		cmp("sha1", "sha1 "+vlib.Hex(b), vlib.Hex(h1[:]))
 		h2 := sha256.Sum256(b)
 		cmp("sha256", "sha256 "+vlib.Hex(b), vlib.Hex(h2[:]))
-		rm := ripemd160.New()
-		rm.Write(b)
-		cmp("ripemd160", "ripemd160 "+vlib.Hex(b), vlib.Hex(rm.Sum(nil)))
+		cmp("ripemd160", "ripemd160 "+vlib.Hex(b), safeStr("ripemd160", func() string {
+			rm := ripemd160.New()
+			rm.Write(b)
+			return vlib.Hex(rm.Sum(nil))
+		}))
 	}
 }
 
@@ -534,6 +549,291 @@ func mutate(g *vlib.Rng, c *Case) {
 	c.Kind += ":mut"
 }
 
+// ---------------------------------------------------------------- tapscript validation-weight budget (BIP342)
+//
+// budget = 50 + serialized size of the COMPLETE input witness (CompactSize(count) + Σ CompactSize(len)+len, the
+// tapscript, the control block and the annex included); every executed CHECKSIG / CHECKSIGVERIFY / CHECKSIGADD with a
+// NON-EMPTY signature costs 50; the script fails when the budget drops below 0. The cases below put the budget at an
+// exact distance (Delta) from 50·k by tuning one length (NOPs in the script, a dropped padding item, the annex).
+
+const (
+	tuneNops = iota
+	tunePad
+	tuneAnnex
+	tuneNone
+)
+
+var tuneNames = []string{"nops", "pad", "annex", "asis"}
+
+// tapFlags: the flag sets of the taproot corpus (also drawn from by the budget generator).
+var tapFlags = []uint32{consensusFlags, script.STANDARD_VERIFY_FLAGS, stdFlags, consensusFlags &^ script.VER_TAPROOT,
+	consensusFlags | script.VER_DIS_TAPVER | script.VER_DIS_SUCCESS | script.VER_DIS_PUBKEYTYPE}
+
+type budgetSpec struct {
+	Checks  string // one letter per executed check. A/a: real 32-byte key through CHECKSIGVERIFY / CHECKSIGADD, U/u: unknown (33-byte, 0x01…) key type, e: CHECKSIGADD with an EMPTY signature (costs nothing)
+	Pick    bool   // false: `<key> (2DUP CHECKSIGVERIFY)×(k-1) CHECKSIG` (Checks all A or all U); true: signatures and keys stay on the stack and are fetched with PICK
+	Depth   int    // merkle path length (control block = 33+32·Depth bytes)
+	Annex   int    // annex length including the 0x50 tag; 0 = no annex
+	Tune    int
+	Delta   int // wanted: budget − 50·k, k = number of checks with a non-empty signature
+	Ht      byte
+	SigULen int // length of the (never verified) signature handed to the unknown key type, ≥ 1
+	Flags   uint32
+}
+
+func csLen(n int) int { return len(compactSize(n)) }
+
+// witnessSer: the serialized size of a witness stack whose items have the given lengths (negative = item absent).
+func witnessSer(lens ...int) int {
+	cnt, sz := 0, 0
+	for _, l := range lens {
+		if l >= 0 {
+			cnt++
+			sz += csLen(l) + l
+		}
+	}
+	return csLen(cnt) + sz
+}
+
+// budgetCase builds the spend; it returns the case, k, and the delta actually reached (== sp.Delta unless the
+// target is out of reach for this shape, in which case the untuned spend is returned).
+func budgetCase(g *vlib.Rng, tk, kA *TapKey, sp budgetSpec) (*Case, int, int) {
+	kU := append([]byte{1}, kA.X...)
+	k := 0
+	hasU := false
+	for _, ch := range sp.Checks {
+		if ch != 'e' {
+			k++
+		}
+		if ch == 'U' || ch == 'u' {
+			hasU = true
+		}
+	}
+	sigALen := 64
+	if sp.Ht != 0 {
+		sigALen = 65
+	}
+	if sp.SigULen < 1 {
+		sp.SigULen = 1
+	}
+	mkScript := func(nops int, pad bool) []byte {
+		var s []byte
+		if pad {
+			s = append(s, 0x75) // DROP the padding item
+		}
+		s = append(s, rep(0x61, nops)...)
+		if !sp.Pick {
+			key := kA.X
+			if hasU {
+				key = kU
+			}
+			s = append(s, pushData(key)...)
+			for i := 1; i < len(sp.Checks); i++ {
+				s = append(s, 0x6e, 0xad) // 2DUP CHECKSIGVERIFY
+			}
+			return append(s, 0xac)
+		}
+		s = append(s, pushData(kU)...)
+		s = append(s, pushData(kA.X)...) // stack: sigU sigA kU kA
+		for _, ch := range sp.Checks {
+			switch ch {
+			case 'A':
+				s = append(s, 0x52, 0x79, 0x78, 0xad) // 2 PICK(sigA) OVER(kA) CHECKSIGVERIFY
+			case 'U':
+				s = append(s, 0x53, 0x79, 0x52, 0x79, 0xad) // 3 PICK(sigU) 2 PICK(kU) CHECKSIGVERIFY
+			case 'a':
+				s = append(s, 0x52, 0x79, 0x00, 0x52, 0x79, 0xba, 0x69) // 2 PICK(sigA) 0 2 PICK(kA) CHECKSIGADD VERIFY
+			case 'u':
+				s = append(s, 0x53, 0x79, 0x00, 0x53, 0x79, 0xba, 0x69) // 3 PICK(sigU) 0 3 PICK(kU) CHECKSIGADD VERIFY
+			case 'e':
+				s = append(s, 0x00, 0x00, 0x52, 0x79, 0xba, 0x75) // <empty sig> 0 2 PICK(kA) CHECKSIGADD DROP
+			}
+		}
+		return append(s, 0x6d, 0x6d, 0x51) // 2DROP 2DROP 1
+	}
+	ctlLen := 33 + 32*sp.Depth
+	ser := func(nops, padLen, annexLen int) int {
+		sl := len(mkScript(0, padLen >= 0)) + nops
+		if annexLen == 0 {
+			annexLen = -1
+		}
+		if sp.Pick {
+			return witnessSer(sp.SigULen, sigALen, padLen, sl, ctlLen, annexLen)
+		}
+		if hasU {
+			return witnessSer(sp.SigULen, padLen, sl, ctlLen, annexLen)
+		}
+		return witnessSer(sigALen, padLen, sl, ctlLen, annexLen)
+	}
+	target := 50*k + sp.Delta - 50
+	nops, padLen, annexLen, hit := 0, -1, sp.Annex, false
+	if sp.Tune != tuneNone {
+		switch sp.Tune {
+		case tuneNops:
+			for n := 0; n <= 8000 && ser(n, -1, sp.Annex) <= target; n++ {
+				if ser(n, -1, sp.Annex) == target {
+					nops, hit = n, true
+				}
+			}
+		case tunePad:
+			for p := 0; p <= 520 && ser(0, p, sp.Annex) <= target; p++ {
+				if ser(0, p, sp.Annex) == target {
+					padLen, hit = p, true
+				}
+			}
+		case tuneAnnex:
+			for a := 1; a <= 8000 && ser(0, -1, a) <= target; a++ {
+				if ser(0, -1, a) == target {
+					annexLen, hit = a, true
+				}
+			}
+		}
+		// the chosen length alone cannot reach the target (CompactSize jumps at 253, the 520-byte element limit, or the
+		// untuned witness is already too big): a few NOPs plus a padding item reach every value from the minimum upwards
+		for n := 0; n <= 3 && !hit; n++ {
+			for p := 0; p <= 520 && ser(n, p, sp.Annex) <= target; p++ {
+				if ser(n, p, sp.Annex) == target {
+					nops, padLen, annexLen, hit = n, p, sp.Annex, true
+				}
+			}
+		}
+		for n := 0; n <= 8000 && !hit && ser(n, 520, sp.Annex) <= target; n++ {
+			if ser(n, 520, sp.Annex) == target {
+				nops, padLen, annexLen, hit = n, 520, sp.Annex, true
+			}
+		}
+	}
+	scr := mkScript(nops, padLen >= 0)
+	lh := tapLeaf(0xc0, scr)
+	root := lh
+	var path []byte
+	for d := 0; d < sp.Depth; d++ {
+		sib := g.Bytes(32)
+		path = append(path, sib...)
+		root = tapBranch(root, sib)
+	}
+	qx, par, _ := tapOutput(tk.X, root)
+	c0 := byte(0xc0)
+	if par {
+		c0 |= 1
+	}
+	var annex []byte
+	if annexLen > 0 {
+		annex = cat([]byte{0x50}, g.Bytes(annexLen-1))
+	}
+	form := "dup"
+	if sp.Pick {
+		form = "pick"
+	}
+	c := base1("", witprog(1, qx), 9000, sp.Flags)
+	var w [][]byte
+	if sp.Pick || hasU {
+		w = append(w, rep(0x01, sp.SigULen))
+	}
+	if sp.Pick || !hasU {
+		w = append(w, signTap(c, g, kA.Priv, annex, lh, 0xffffffff, sp.Ht, true))
+	}
+	if padLen >= 0 {
+		w = append(w, rep(9, padLen))
+	}
+	w = append(w, scr, cat([]byte{c0}, tk.X, path))
+	if annex != nil {
+		w = append(w, annex)
+	}
+	c.setWit(w...)
+	wl := make([]int, len(w))
+	for i := range w {
+		wl[i] = len(w[i])
+	}
+	delta := 50 + witnessSer(wl...) - 50*k
+	c.Kind = fmt.Sprintf("tapscript:budget-%s-%s-d%d-%s-delta%+d", form, sp.Checks, sp.Depth, tuneNames[sp.Tune], delta)
+	c.Note = fmt.Sprintf("BIP342 budget: 50 + witness size %d = %d against %d checks with a non-empty signature (nops %d, pad %d, annex %d, script %d bytes)",
+		witnessSer(wl...), 50+witnessSer(wl...), k, nops, padLen, annexLen, len(scr))
+	// the verdict the rules give, from the arithmetic above (the reference semantics must agree with it)
+	full := uint32(script.VER_P2SH | script.VER_WITNESS | script.VER_TAPROOT)
+	switch {
+	case sp.Flags == consensusFlags&^script.VER_TAPROOT:
+		c.Expect = "OK" // taproot not active: any witness v1 spend passes
+	case sp.Flags&full == full:
+		c.Expect = "OK"
+		if delta < 0 || (hasU && sp.Flags&script.VER_DIS_PUBKEYTYPE != 0) {
+			c.Expect = "ERR"
+		}
+	}
+	return c, k, delta
+}
+
+func deltaClass(d int) string {
+	switch {
+	case d < -1:
+		return "short"
+	case d > 1:
+		return "slack"
+	}
+	return fmt.Sprintf("%+d", d)
+}
+
+// budgetStream: seeded random budget spends.
+func budgetStream(g *vlib.Rng, n int) {
+	tk, kA := newTapKey(g), newTapKey(g)
+	for i := 0; i < n; i++ {
+		sp := budgetSpec{Depth: g.Intn(6), Tune: g.Pick(tuneNops, tuneNops, tunePad, tuneAnnex), Ht: byte(g.Pick(0, 0, 0, 1, 0x81, 0x83)),
+			SigULen: g.Pick(1, 1, 1, 2, 64, 65), Flags: tapFlags[g.Pick(0, 0, 0, 1, 2, 2, 3, 4)]}
+		switch g.Intn(10) {
+		case 0, 1, 2, 3:
+			sp.Delta = 0
+		case 4, 5:
+			sp.Delta = -1
+		case 6:
+			sp.Delta = 1
+		case 7:
+			sp.Delta = 2 + g.Intn(300)
+		case 8:
+			sp.Delta = -2 - g.Intn(60)
+		default:
+			sp.Tune = tuneNone
+		}
+		if g.Intn(10) < 4 && sp.Tune != tuneAnnex {
+			sp.Annex = 1 + g.Intn(40)
+			if g.Intn(8) == 0 {
+				sp.Annex = g.Pick(252, 253, 254, 521, 600)
+			}
+		}
+		k := 1 + g.Intn(10)
+		switch g.Intn(3) {
+		case 0:
+			sp.Checks = strings.Repeat("A", k)
+		case 1:
+			sp.Checks = strings.Repeat("U", k)
+		default:
+			sp.Pick = true
+			letters := "AAUUaaue"
+			if g.Intn(3) == 0 {
+				letters = "Aae" // real signatures only
+			}
+			b := make([]byte, k)
+			for j := range b {
+				b[j] = letters[g.Intn(len(letters))]
+			}
+			sp.Checks = string(b)
+		}
+		var c *Case
+		var delta int
+		for try := 0; ; try++ {
+			// every attempt draws from its own fork, so the main stream advances by exactly one value per attempt
+			gg := vlib.NewRng(g.U64())
+			c, _, delta = budgetCase(gg, tk, kA, sp)
+			if sp.Tune == tuneNone || delta == sp.Delta || try >= 12 {
+				break
+			}
+			// the untuned witness is already above the target: one more check lowers budget − 50·k
+			sp.Checks += sp.Checks[len(sp.Checks)-1:]
+		}
+		r.Hit("budget:delta-" + deltaClass(delta))
+		runCase(c)
+	}
+}
+
 func generated() {
 	g := r.Rng.Fork()
 	// ---- per-opcode sweep through evalScript: every opcode byte × stack depth × sigversion × flags
@@ -605,5 +905,7 @@ func generated() {
 		}
 		runCase(c)
 	}
+	// ---- tapscript sigop budget at and around its boundary
+	budgetStream(r.Rng.Fork(), r.N(160, 6000))
 	_ = bytes.Equal
 }
